@@ -15,13 +15,31 @@ Definition kcode (k : kclass) : Z :=
    While the history is backward the whole property is proved on the model (c17_backward_domain_correct):
    a failure there is never excused by a class, whatever the input-only class predicates say (stale_request
    over-approximates on Register(a); Before(a).Register(b); Remove(b); Register(b)). *)
+(* the label KStarReplace (a "*" callback has been replaced: fixed by /repo e28c215, not a known finding) must
+   not hide a class that is still known: After("*").Register(x); Replace(x); Before(x).Register(y) is a member
+   of after-overwritten - the write cs[idx].after = y lands in x's replacement, which loses its "*" request, is
+   moved in front of the original by the next pre-sort, and the ORIGINAL's handler runs again *)
+Definition class_k (r : rstate) : kclass :=
+  match class_of r with
+  | KStarReplace =>
+    let live := r_live r in
+    if after_overwritten live then KAfterOverwritten
+    else if stale_request r then KStaleRequest
+    else if self_target live then KSelfTarget
+    else if cyclic (map e_name live) (builtin_chain None live ++ named_edges live) then KNamedCycle
+    else KStarReplace
+  | k => k
+  end.
+Definition is_known_k (r : rstate) : bool :=
+  match class_k r with KNone | KSelfTarget | KStarReplace => false | _ => true end.
+
 Fixpoint first_known_from (F : list string) (bk : bool) (r : rstate) (i : N) (h : list step) : kclass :=
   match h with
   | [] => KNone
   | s :: h' =>
     let r' := ref_apply r i s in
     let bk' := bk && ok_step_b F s in
-    if r_dom r' then (if is_known r' && negb bk' then class_of r' else first_known_from (tgts s ++ F) bk' r' (N.succ i) h')
+    if r_dom r' then (if is_known_k r' && negb bk' then class_k r' else first_known_from (tgts s ++ F) bk' r' (N.succ i) h')
     else KNone
   end.
 Definition first_known (r : rstate) (i : N) (h : list step) : kclass := first_known_from [] true r i h.
